@@ -79,7 +79,7 @@ def write():
             "kind_free_text": "hand-written bounded exhaustive explorers over the real neatvi objects: enumeration harnesses at library interfaces, and a fork-snapshot explorer driven from inside the wrapped read()/getc() of the real main() (link-time --wrap of libc, in-memory VFS, fault plans, terminal emulator)",
         }],
         "checks": [],
-        "notes": "All checks: ./run <ID> quick|thorough from /verif; they rebuild from /repo's working tree (override with NV_SRC). Exit 2 = harness/infrastructure error, never reported as a violation. KNOWN_FINDINGS.txt lists recorded and fixed defects.",
+        "notes": "All checks: ./run <ID> quick|thorough from /verif; they rebuild from /repo's working tree (override with NV_SRC). Exit 1 = a violation was observed (a crash, sanitizer report or hang of the code under test counts as one). Exit 2 = harness/infrastructure error only, never reported as a violation. KNOWN_FINDINGS.txt lists recorded and fixed defects.",
         "not_applicable": [],
     }
     for p in props:
